@@ -1048,4 +1048,29 @@ theorem negRelImpl_nil (g : Graph) (fw : List Term) : negRelImpl g fw [] = negRe
   apply propext
   simp [negRelImpl, negRel]
 
+/-- a predicate that is not a member of the set: one more than the sum of the members -/
+def freshPred : List Nat → Nat
+  | [] => 0
+  | x :: xs => x + freshPred xs + 1
+
+theorem lt_freshPred : ∀ (l : List Nat) (x : Nat), x ∈ l → x < freshPred l
+  | y :: ys, x, h => by
+    rcases List.mem_cons.mp h with e | e
+    · subst e; show x < x + freshPred ys + 1; omega
+    · have := lt_freshPred ys x e; show x < y + freshPred ys + 1; omega
+
+theorem freshPred_not_mem (l : List Nat) : freshPred l ∉ l :=
+  fun h => Nat.lt_irrefl _ (lt_freshPred l _ h)
+
+/-- a negated property set with an inverse member is answered wrongly on the one-triple graph `0 q 1`, `q` fresh:
+    the reversed triple `(1, 0)` is demanded and `NegatedPath.eval` only ever answers forward triples -/
+theorem negRelImpl_ne_of_inverse (fw : List Term) (b : Term) (bs : List Term) :
+    negRel [(0, freshPred (fw ++ b :: bs), 1)] fw (b :: bs) 1 0 ∧
+    ¬ negRelImpl [(0, freshPred (fw ++ b :: bs), 1)] fw (b :: bs) 1 0 := by
+  refine ⟨Or.inr ⟨by simp, freshPred (fw ++ b :: bs), by simp, ?_⟩, ?_⟩
+  · intro h
+    exact freshPred_not_mem (fw ++ b :: bs) (List.mem_append_right _ h)
+  · rintro ⟨p, hp, _⟩
+    simp at hp
+
 end RV.C11
